@@ -49,6 +49,19 @@ CHECKS = {
  "C18": ("bounded exhaustive enumeration: every C04/C05 program and every sequence <= n of 13 pieces in which comments are the only separators; each run with strip_comments off and on, differential oracle on tokens, table and error plus absence of comments",
          "All inputs of the stated finite spaces are run twice and compared.",
          "Trusted: models/lexref.rs to tokenise outputs. Three known findings matched by signatures (fused tokens, comment attached to a literal, directive after a literal)."),
+
+ "C07": ("explicit-state exploration of call histories on the real library: every sequence <= n of an 18-call alphabet executed on a fresh OS thread with the last result compared to the fresh-thread result, plus a breadth-first search over hooked thread-state fingerprints (memo occupancy, directive depth, keyword-version stack) with every call checked from every reachable state",
+         "All operation sequences up to the stated depth are executed on the real entry points (forced memo-key collisions through one reused buffer); the BFS reports states, transitions and the depth at which the frontier emptied.",
+         "Trusted: the harness; the hook thread_state() as the complete mutable parser state apart from nom-recursive's monotone id table; state merging only in the BFS part."),
+ "C09": ("exhaustive enumeration of recursion depths and cycle lengths (macro chains, function-like macro chains, include chains of depth 1..70, cycles of length 1..4, macro-expands-to-include cycles, grids of include depth x macro depth), one process per case with the default 8 MiB stack and a 20 s cap",
+         "Every depth / cycle of the stated finite space is executed on real files through preprocess(); result, number of Include wrappers and survival of the process are checked.",
+         "Trusted: the harness; limit 64 as the property states. A process that dies is the violation."),
+ "C10": ("bounded exhaustive enumeration over real directory layouts: every subset of {cwd, inc1, inc2} holding the file x 5 include-path lists x 7 contents x 3 directive styles x once/twice x ignore_include x relative/absolute x layouts, against the reference preprocessor with the property's search rule; plus same-line forms and `include inside expansions",
+         "Every configuration of the stated finite space is laid out on disk and run through preprocess() and preprocess_str(); tokens, define table, origins and errors are compared with the model on each.",
+         "Trusted: models/ppref.rs incl. the search rule as the property states it; process-wide chdir into a scratch directory with per-thread file names."),
+ "C20": ("exhaustive enumeration of 44 inputs x ignore_include x allow_incomplete x strip_comments x 3 define tables x 4 include-path lists on real files; differential oracle between preprocess/preprocess_str and between the four routes to a tree (text, origin of every byte/leaf, tables with origins, errors)",
+         "All configurations of the stated finite space are executed through every entry point and compared pairwise.",
+         "Trusted: the harness. The copies of the included file differ per include path so that dropped or reordered arguments are observable."),
 }
 PENDING = {}
 
